@@ -109,6 +109,7 @@ def prefix_agree(ctx, res):
     tps = [a.arg for a in tdn.args.args]
     for label, shape in SHAPES.items():
         it = Interp({}, "Delegate.__init__")
+        it.functions = mod.functions
         env = {ps[1]: ("D",), ps[2]: shape, "modify": False,
                "listenable": True, "metadata": None, "delegate": ("D",)}
         env[ps[1]] = ("D",)
@@ -397,12 +398,23 @@ def listener_pairing(ctx, res):
     if not rm_if:
         raise AnalysisError("_remove_trait_delegate_listener: `if remove:`")
     blk = ast.Module(rm_if[0].body, [])
+    # the local bound to the per-object listener table
+    tbl = None
+    for a in ast.walk(rem):
+        if isinstance(a, ast.Assign) and len(a.targets) == 1 \
+                and isinstance(a.targets[0], ast.Name) \
+                and "ListenerTraits" in norm(a.value) \
+                and ".__dict__" in norm(a.value):
+            tbl = a.targets[0].id
+    if tbl is None:
+        raise AnalysisError("_remove_trait_delegate_listener: listener "
+                            "table local not found")
     unregs = [c for c in ast.walk(blk) if is_self_call(c, "on_trait_change")]
     ok = False
     if len(unregs) == 1:
         c = unregs[0]
         kws = {k.arg: norm(k.value) for k in c.keywords}
-        ok = (norm(c.args[0]) == f"dict[{rps[1]}]"
+        ok = (norm(c.args[0]) == f"{tbl}[{rps[1]}]"
               and norm(c.args[1]).startswith(
                   f"self._trait_delegate_name({rps[1]}, ")
               and "__listener_traits__" in norm(c.args[1])
@@ -413,16 +425,18 @@ def listener_pairing(ctx, res):
                "remove=True)")
     dels = [norm(d.targets[0]) for d in ast.walk(blk)
             if isinstance(d, ast.Delete)]
-    res.oblige(f"dict[{rps[1]}]" in dels, "remove:table", mod.loc(rem),
+    res.oblige(f"{tbl}[{rps[1]}]" in dels, "remove:table", mod.loc(rem),
                "the table entry is not deleted when the listener is detached "
                "(deleting the local value would not re-attach it)")
     # remove=False: re-initialise iff absent, with the class pattern
-    tail = rem.body[rem.body.index(rm_if[0]) + 1:]
+    # (after the `if remove:` block or in its else/elif part)
+    tail = rem.body[rem.body.index(rm_if[0]) + 1:] + rm_if[0].orelse
     re_init = [c for c in ast.walk(ast.Module(tail, []))
                if is_self_call(c, "_init_trait_delegate_listener")]
     guards = [norm(i.test) for i in ast.walk(ast.Module(tail, []))
               if isinstance(i, ast.If)]
-    res.oblige(len(re_init) == 1 and f"{rps[1]} not in dict" in guards
+    guards += [norm(i.test) for i in rm_if[0].orelse if isinstance(i, ast.If)]
+    res.oblige(len(re_init) == 1 and f"{rps[1]} not in {tbl}" in guards
                and "__listener_traits__" in norm(re_init[0].args[2]),
                "remove:restore", mod.loc(rem),
                "deleting the local value must re-attach the listener (only "
